@@ -127,12 +127,12 @@ def handle (j : Json) : Except String Json := do
     let ns ← parseNs j
     let spec := flattenSpec ns
     let res := match flattenOp ns with
-      | .ok comps => [("ok", jarr (comps.map jcomp))]
+      | .ok comps => [("ok", jarr (comps.map jcomp)), ("envnames", jarr ((envNames comps).map (jopt jnat)))]
       | .invalid ph errs => [("invalid", jarr (errs.map jerr)), ("phase", jnat ph)]
       | .outOfFuel => [("out_of_fuel", jbool true)]
     return jobj (res ++ [("spec", jarr (spec.map fun s => jobj [("loc", jloc s.loc), ("args", jarr (s.args.map jtok)),
                                      ("env", jopt (fun v => jarr (v.map jtok)) s.env)])),
-                         ("edges", jarr ((specEdges spec).map fun e => jarr [jloc e.1, jloc e.2])),
+                         ("edges", jarr ((specEdgesAll spec).map fun e => jarr [jloc e.1, jloc e.2])),
                          ("old", oldBehaviour ns), ("replicas", replicaAnswers ns)])
   | "parse_name" =>
     let n ← getChars j "name"
